@@ -33,6 +33,7 @@ Definition e_lt : str := [38; 108; 116; 59].               (* &lt; *)
 Definition e_gt : str := [38; 103; 116; 59].               (* &gt; *)
 Definition e_quot : str := [38; 113; 117; 111; 116; 59].   (* &quot; *)
 Definition e_apos : str := [38; 97; 112; 111; 115; 59].    (* &apos; *)
+Definition e_cr : str := [38; 35; 49; 51; 59].             (* &#13; *)
 
 (* XML 1.0 Char *)
 Definition xml_char (c : Z) : bool :=
@@ -48,7 +49,9 @@ Definition replace1 (c : Z) (rep : str) (s : str) : str :=
 Definition html_escape (k : cfg) (v : str) : str :=
   let v := if cfg_html_xmlsafe k then map (fun c => if xml_char c then c else QM) v else v in
   let s := replace1 DQ e_quot (replace1 GT e_gt (replace1 LT e_lt (replace1 AMP e_amp v))) in
-  if cfg_html_apos k then replace1 SQ e_apos s else s.
+  let s := if cfg_html_apos k then replace1 SQ e_apos s else s in
+  (* 44b4e9c: a sixth replace, \r by its character reference (not subject to line-end normalisation) *)
+  if cfg_html_cr k then replace1 13 e_cr s else s.
 
 (* ---------------------------------------------------------------------- *)
 (* character classes of the subset *)
